@@ -11,7 +11,8 @@ RULE = (
     "Hypothesis generates 1-3 keys of every type in any first-appearance order (categoricals with unused categories "
     "and non-lexical category order), handed over as array / named Series / list / dict / DataFrame, values handed "
     "over as 1-D array, named or unnamed Series, list of scalars, list of arrays, dict, DataFrame or 2-D array "
-    "(1-3 columns), a mask, sort on/off, observed_only on/off and one of the 8 reductions.  Non-trivial = the "
+    "(1-3 columns; names that are strings, integers or falsy values such as 0), a key layout (contiguous or chunk-wise "
+    "factorized), a mask, sort on/off, observed_only on/off and one of the 8 reductions.  Non-trivial = the "
     "first-appearance order differs from the sorted order, or an unobserved label exists, or there are >= 2 value "
     "columns.  Distinct = case hash."
 )
@@ -29,12 +30,17 @@ ASSUMPTIONS = [
 @st.composite
 def case_strategy(draw, variant):
     n = draw(st.sampled_from([1, 2, 3, 4, 5, 6, 8, 10, 12, 16, 20]))
-    nk = draw(st.integers(1, 3))
-    keys_as = draw(st.sampled_from(["auto", "auto", "list", "dict", "df", "series"]))
+    layout = draw(st.sampled_from(["contiguous", "contiguous", "contiguous", "chunkwise"]))
+    nk = draw(st.integers(1, 3)) if layout == "contiguous" else 1
+    keys_as = draw(st.sampled_from(["auto", "auto", "list", "dict", "df", "series"])) if layout == "contiguous" else "auto"
     keys = []
     for i in range(nk):
         named = keys_as in ("dict", "df") or draw(st.booleans())
-        k = draw(S.key_column(n, max_labels=4, name=f"k{i}" if named else None))
+        if layout == "chunkwise":
+            n = max(n, 4)
+            k = draw(S.key_column(n, types=("int", "float", "dt"), max_labels=4, name=None, shape=draw(st.sampled_from(["random", "blocks", "sorted_prefix"]))))
+        else:
+            k = draw(S.key_column(n, max_labels=4, name=f"k{i}" if named else None))
         keys.append(k)
     if keys_as == "series" and nk > 1:
         keys_as = "list"
@@ -62,7 +68,8 @@ def case_strategy(draw, variant):
         vals_as = "np"
     return {"n": n, "keys": keys, "vals": vals, "mask": draw(S.mask_spec(n, kinds=("none", "none", "bool", "slice"))),
             "op": draw(st.sampled_from(opsl)), "sort": draw(st.booleans()), "observed_only": draw(st.sampled_from([True, True, False])),
-            "keys_as": keys_as, "vals_as": vals_as}
+            "keys_as": keys_as, "vals_as": vals_as, "layout": layout, "threshold": draw(st.integers(1, n)), "key_chunks": draw(st.integers(1, 5)),
+            "names": draw(st.sampled_from(["str", "str", "int", "falsy"]))}
 
 
 def key_objects(case):
@@ -97,6 +104,20 @@ def value_objects(case):
     how = case["vals_as"]
     vs = case["vals"]
     arrs = [data.render_val(v, "np") for v in vs]
+    style = case.get("names", "str")
+    if style != "str":
+        # integer / falsy labels (0, False ...) are names like any other
+        labels = [0, 1, 2] if style == "int" else [0, False, ""][:len(arrs)] if False else [0, 1, 2]
+        if style == "falsy":
+            labels = [0, 7, 8]
+        if how == "series_named":
+            return pd.Series(arrs[0], name=labels[0]), None, labels[0]
+        if how == "list_named":
+            return [pd.Series(a, name=labels[i]) for i, a in enumerate(arrs)], labels[:len(arrs)], None
+        if how == "dict":
+            return {labels[i]: a for i, a in enumerate(arrs)}, labels[:len(arrs)], None
+        if how == "df":
+            return pd.DataFrame({labels[i]: a for i, a in enumerate(arrs)}), labels[:len(arrs)], None
     if how == "np":
         return arrs[0], None, None
     if how == "series_named":
@@ -133,7 +154,12 @@ def check(case, ctx):
     karg, knames = key_objects(case)
     varg, colnames, sname = value_objects(case)
     mask = data.render_mask(case["mask"], n)
-    gb = GroupBy(karg, sort=case["sort"])
+    if case.get("layout") == "chunkwise":
+        with gbops.Shims(threshold=case["threshold"], key_chunks=case["key_chunks"]):
+            gb = GroupBy(karg, sort=case["sort"])
+            gb.result_index
+    else:
+        gb = GroupBy(karg, sort=case["sort"])
     kw = {"observed_only": case["observed_only"]}
     res = gb.size(mask=mask, **kw) if op == "size" else getattr(gb, op)(varg, mask=mask, **kw)
     labels, pos, groups = gbops.model_groups(case)
@@ -150,7 +176,7 @@ def check(case, ctx):
     unobserved = [l for l in universe if l not in groups]
     nt = (first_app != sorted(first_app, key=sk)) or bool(unobserved) or len(case["vals"]) >= 2
     ctx.seen("shape", case, nt, [f"op:{op}", f"sort:{case['sort']}", f"observed_only:{case['observed_only']}", f"keys_as:{case['keys_as']}",
-                                 f"vals_as:{case['vals_as']}", f"nkeys:{len(case['keys'])}", "mask:" + (case["mask"]["kind"] if case["mask"] else "none"),
+                                 f"vals_as:{case['vals_as']}", f"layout:{case.get('layout')}", f"names:{case.get('names')}", f"nkeys:{len(case['keys'])}", "mask:" + (case["mask"]["kind"] if case["mask"] else "none"),
                                  f"unobserved:{bool(unobserved)}"] + [f"keytype:{k['t']}" for k in case["keys"]])
     # ---- container shape
     if op == "size":
